@@ -221,3 +221,31 @@ Proof. exact rs_parse_mantissa_eq_TABLES. Qed.
 
 Print Assumptions C06_rs_parse_mantissa_eq.
 Print Assumptions C06_rs_parse_mantissa_eq_TABLES.
+
+(** SOURCE TIE for the big-integer stage of src/slow.rs (regenerated on every run, coq/gen/SrcSlow.v) = model, for the tables of the crate. *)
+From ML Require Import model.SrcLib model.SrcLibFront gen.Src gen.SrcBigint gen.SrcSlow gen.SrcParse gen.SrcFrontSimple gen.SrcFrontEtc gen.SrcFrontFuzz gen.SrcFrontTest proofs.SrcEqParse proofs.SrcEqSlow proofs.SrcEqFront proofs.SrcFinal.
+
+Theorem C06_rs_positive_digit_comp_eq_TABLES :
+  forall (c : config) (f : format) (b : build) (big : vec) (e : Z),
+         SrcEqBase.fmt_ok f ->
+         LimbVal.limbs_ok (vl big) ->
+         zlen (vl big) < 2 ^ 63 ->
+         rs_positive_digit_comp c TABLES LIMITS f b big e = positive_digit_comp c TABLES LIMITS f b big e.
+Proof. exact rs_positive_digit_comp_eq_TABLES. Qed.
+
+Theorem C06_rs_negative_digit_comp_eq_TABLES :
+  forall (c : config) (f : format) (b : build) (big : vec) (fp : extfloat) (e : Z),
+         SrcEqBase.fmt_ok f ->
+         rs_negative_digit_comp c TABLES LIMITS f b big fp e = negative_digit_comp c TABLES LIMITS f b big fp e.
+Proof. exact rs_negative_digit_comp_eq_TABLES. Qed.
+
+Theorem C06_rs_slow_eq_TABLES :
+  forall (c : config) (f : format) (b : build) (n : number) (fp : extfloat) (i fr : list Z),
+         SrcEqBase.fmt_ok f ->
+         zlen i + zlen fr < 2 ^ 63 ->
+         rs_slow c TABLES LIMITS f b n fp i fr = slow c TABLES LIMITS f b n fp i fr.
+Proof. exact rs_slow_eq_TABLES. Qed.
+
+Print Assumptions C06_rs_positive_digit_comp_eq_TABLES.
+Print Assumptions C06_rs_negative_digit_comp_eq_TABLES.
+Print Assumptions C06_rs_slow_eq_TABLES.
